@@ -21,8 +21,13 @@ def sh(cmd, cwd=None, timeout=3600, env=None, quiet=True):
     e["CARGO_NET_OFFLINE"] = "true"
     if env:
         e.update(env)
-    p = subprocess.run(cmd, cwd=cwd, shell=isinstance(cmd, str), stdout=subprocess.PIPE,
-                       stderr=subprocess.STDOUT, timeout=timeout, env=e, text=True, errors="replace")
+    try:
+        p = subprocess.run(cmd, cwd=cwd, shell=isinstance(cmd, str), stdout=subprocess.PIPE,
+                           stderr=subprocess.STDOUT, timeout=timeout, env=e, text=True, errors="replace")
+    except subprocess.TimeoutExpired as ex:
+        # a command that does not come back (an endpoint or a decoder that spins) is reported, not waited for
+        out = ex.stdout if isinstance(ex.stdout, str) else (ex.stdout or b"").decode(errors="replace")
+        return 124, (out or "") + "\nTIMEOUT: `%s` had not finished after %d s" % (cmd if isinstance(cmd, str) else " ".join(cmd), timeout)
     return p.returncode, p.stdout
 
 
@@ -160,7 +165,7 @@ def run_sub(prop, sub, seed, n, thorough, corpus, release=False, extra=None):
         cmd += ["--corpus", corpus]
     if extra:
         cmd += extra
-    rc, out = sh(cmd, cwd=HARN, timeout=sub.get("timeout", 3000))
+    rc, out = sh(cmd, cwd=HARN, timeout=sub.get("timeout", 3000 if thorough else 900))
     return rc, out, d
 
 
